@@ -23,6 +23,10 @@ Static clauses decided (necessary conditions of C20):
          entity a query iterates over silently drops them, and a value the session selected on is left out of the optimistic
          check.  Checked for every statement in core.py that adds bits to `<X>._rbits_`.
 """
+# an attribute value can only be checked at UPDATE time if its read was recorded: the clauses of C21 about recording observations (plain access, collections,
+# serialising readers such as to_dict(), read marks that only grow) are necessary conditions of C20 as well
+INCLUDES = ('C21',)
+
 NOT_DECIDED = "interleavings; what the database does with the WHERE clause; deletes (pony performs no optimistic check on DELETE)"
 
 CORE = 'pony.orm.core'
